@@ -48,7 +48,6 @@ func tokens(path string) ([]string, error) {
 	return out, nil
 }
 
-
 // compareOutside checks that every top-level declaration of the source file re-appears in the
 // generated file, identical except at directive call sites, and that imports are only added.
 func compareOutside(key string, sp *packages.Package, sf *ast.File, sfset *token.FileSet, gp *packages.Package, gf *ast.File) FileCmp {
